@@ -1,8 +1,9 @@
 (* The executable specification / monitor of Cases/CasesC10.v agrees with the model on every input:
    [spec_who] (who the request is entitled to act as, written from the property text) IS the
    client the model's authenticate accepts, and the monitor accepts the model's own observation on
-   every input, except for the two shapes in which the faithful model itself violates the property
-   text (recorded findings, each with its own tag). *)
+   every input.  The two tags of the repaired defects (PAR client binding, class of a time-invalid
+   assertion) stay in the monitor; the examples at the end show that they still fire on the
+   observations the unrepaired code produced. *)
 From FositeModel Require Import Base.Str Model.ClientAuth Proofs.ClientAuthProofs Cases.CasesC10.
 
 Local Open Scope string_scope.
@@ -108,7 +109,7 @@ Proof. induction a; simpl; [reflexivity|]. now rewrite String.eqb_refl. Qed.
 Lemma err_named : forall cmp st rq e, authenticate cmp st rq = AErr e -> ecode_str e <> "".
 Proof.
   intros cmp st rq e H. apply authenticate_err_class in H.
-  destruct H as [X|[X|[[X _]|[X _]]]]; subst e; easy.
+  destruct H as [X|[X|[X _]]]; subst e; easy.
 Qed.
 
 Local Arguments responsible : simpl never.
@@ -149,18 +150,11 @@ Proof.
 Qed.
 
 Lemma rejection_class_named : forall cmp st rq e,
-  authenticate cmp st rq = AErr e ->
-  rejection_class_ok rq (ecode_str e) = true \/
-  (ecode_str e = "error" /\ time_invalid_assertion rq = true /\ rejection_class_ok rq (ecode_str e) = false).
+  authenticate cmp st rq = AErr e -> rejection_class_ok rq (ecode_str e) = true.
 Proof.
   intros cmp st rq e H. apply authenticate_err_class in H.
-  destruct H as [X|[X|[[X [Y Z]]|[X [Y [Z [W U]]]]]]]; subst e.
-  - now left.
-  - now left.
-  - left. unfold rejection_class_ok. rewrite Y, Z, String.eqb_refl. reflexivity.
-  - right. split; [reflexivity|]. split.
-    + unfold time_invalid_assertion. rewrite Y, Z, W, U, String.eqb_refl. reflexivity.
-    + reflexivity.
+  destruct H as [X|[X|[X [Y Z]]]]; subst e; [reflexivity|reflexivity|].
+  unfold rejection_class_ok. rewrite Y, Z, String.eqb_refl. reflexivity.
 Qed.
 
 Definition par_tag : string := "par_client_id_not_bound_to_authenticated_client".
@@ -174,13 +168,10 @@ Lemma monitor_cases : forall cmp cf st ep rq o changed final,
   (processed o = true -> ob_client o <> "" -> exists c, who = Some c /\ c_id c = ob_client o) ->
   (processed o = true -> ob_client o = "" -> skip_allowed cf ep = true) ->
   (who = None -> skip_allowed cf ep = false ->
-     ob_calls o = [] /\
-     (rejection_class_ok rq (ob_res o) = true \/
-      (ob_res o = "error" /\ time_invalid_assertion rq = true /\ rejection_class_ok rq (ob_res o) = false))) ->
+     ob_calls o = [] /\ rejection_class_ok rq (ob_res o) = true) ->
   (ob_res o <> "" -> ob_calls o = [] -> changed = false) ->
   (is_cc_grant ep = true -> forall c, who = Some c -> c_public c = true -> ob_res o <> "" /\ changed = false) ->
-  monitor cmp cf st ep rq o changed final = None \/
-  monitor cmp cf st ep rq o changed final = Some time_tag.
+  monitor cmp cf st ep rq o changed final = None.
 Proof.
   intros cmp cf st ep rq o changed final who F1 F2 F3 F5 F6.
   unfold monitor. rewrite spec_who_is_model. fold who. fold (processed o).
@@ -201,18 +192,16 @@ Proof.
     destruct (ob_calls o) eqn:Ec; [|reflexivity]. simpl.
     apply F5; [now apply nonempty_true|reflexivity]. }
   destruct who as [c|] eqn:Ew; simpl.
-  - rewrite C5. left.
+  - rewrite C5.
     destruct (is_cc_grant ep) eqn:Ecc; [|reflexivity].
     destruct (c_public c) eqn:Ep; [|reflexivity]. simpl.
     destruct (F6 eq_refl c eq_refl Ep) as [A B]. subst changed.
     apply nonempty_true in A. rewrite A. apply nonempty_true in A.
     apply String.eqb_neq in A. rewrite A. reflexivity.
   - destruct (skip_allowed cf ep) eqn:Es; simpl.
-    + rewrite C5. left. now rewrite andb_false_r.
+    + rewrite C5. now rewrite andb_false_r.
     + destruct (F3 eq_refl eq_refl) as [A B]. rewrite A in C5. simpl in C5. rewrite A. simpl.
-      destruct B as [B|[B1 [B2 B3]]].
-      * rewrite B. simpl. rewrite C5. left. now rewrite andb_false_r.
-      * right. rewrite B3. simpl. rewrite B1, B2. reflexivity.
+      rewrite B. simpl. rewrite C5. now rewrite andb_false_r.
 Qed.
 
 Lemma auth_ok_in : forall cmp st rq c, authenticate cmp st rq = AOk c -> In c st.
@@ -228,8 +217,7 @@ Lemma monitor_token : forall cmp cf st g rq houts changed final,
   table_ok (cf_handlers cf) = true -> no_empty_id st ->
   let o := run_endpoint cmp cf st (EToken g) rq houts in
   (ob_res o <> "" -> (ob_calls o = [] \/ is_cc_grant (EToken g) = true) -> changed = false) ->
-  monitor cmp cf st (EToken g) rq o changed final = None \/
-  monitor cmp cf st (EToken g) rq o changed final = Some time_tag.
+  monitor cmp cf st (EToken g) rq o changed final = None.
 Proof.
   intros cmp cf st g rq houts changed final Ht Hne o Hch.
   apply monitor_cases.
@@ -261,7 +249,7 @@ Proof.
       apply String.eqb_eq in Hp. destruct C as [C|C]; rewrite C in Hp; [now apply (err_named cmp st rq e)|easy].
   - (* F3 *)
     subst o. unfold run_endpoint, token_endpoint.
-    destruct (grant_types g) as [|g0 gr] eqn:Eg; [intros _ _; split; [reflexivity|now left]|].
+    destruct (grant_types g) as [|g0 gr] eqn:Eg; [intros _ _; split; reflexivity|].
     destruct (authenticate cmp st rq) as [c|e] eqn:Ea; [easy|].
     intros _ Es. apply skip_allowed_token_false in Es. rewrite Eg in Es.
     destruct (token_failure_guarded cmp st (cf_switch cf) (cf_handlers cf) rq g houts e Ht Ea) as [A [B C]];
@@ -269,7 +257,7 @@ Proof.
     unfold token_endpoint in A, B, C. rewrite Eg, Ea in A, B, C.
     destruct (token_loop (cf_switch cf) (cf_handlers cf) 0 (g0 :: gr) (AErr e) houts false) as [t calls].
     simpl in *. split; [exact A|].
-    destruct C as [C|C]; rewrite C; [now apply rejection_class_named with cmp st|now left].
+    destruct C as [C|C]; rewrite C; [now apply rejection_class_named with cmp st|reflexivity].
   - (* F5 *) intros A B. apply Hch; auto.
   - (* F6 *)
     intros Hcc c Hw Hp. simpl in Hcc. apply list_eqb_true in Hcc.
@@ -282,12 +270,9 @@ Qed.
 (* an observation "refused before any handler ran" *)
 Lemma monitor_rejected : forall cmp cf st ep rq r changed final,
   r <> "" ->
-  (client_of (authenticate cmp st rq) = None ->
-     rejection_class_ok rq r = true \/
-     (r = "error" /\ time_invalid_assertion rq = true /\ rejection_class_ok rq r = false)) ->
+  (client_of (authenticate cmp st rq) = None -> rejection_class_ok rq r = true) ->
   changed = false ->
-  monitor cmp cf st ep rq (Obs r "" []) changed final = None \/
-  monitor cmp cf st ep rq (Obs r "" []) changed final = Some time_tag.
+  monitor cmp cf st ep rq (Obs r "" []) changed final = None.
 Proof.
   intros cmp cf st ep rq r changed final Hr Hc Hch. apply monitor_cases; simpl.
   - intros H. now rewrite processed_false in H.
@@ -301,8 +286,7 @@ Qed.
 Lemma monitor_as_authenticated : forall cmp cf st ep rq c r calls changed final,
   authenticate cmp st rq = AOk c -> c_id c <> "" -> is_cc_grant ep = false ->
   (r <> "" -> calls = [] -> changed = false) ->
-  monitor cmp cf st ep rq (Obs r (c_id c) calls) changed final = None \/
-  monitor cmp cf st ep rq (Obs r (c_id c) calls) changed final = Some time_tag.
+  monitor cmp cf st ep rq (Obs r (c_id c) calls) changed final = None.
 Proof.
   intros cmp cf st ep rq c r calls changed final Ha Hid Hcc Hch. apply monitor_cases; simpl; rewrite ?Ha; simpl.
   - intros _ _. exists c. auto.
@@ -312,16 +296,11 @@ Proof.
   - now rewrite Hcc.
 Qed.
 
-Lemma three_of_two : forall (m : option string),
-  m = None \/ m = Some time_tag -> m = None \/ m = Some par_tag \/ m = Some time_tag.
-Proof. intros m [H|H]; auto. Qed.
-
 Lemma monitor_revoke : forall cmp cf st rq houts changed final,
   no_empty_id st ->
   let o := run_endpoint cmp cf st ERevoke rq houts in
   (ob_res o <> "" -> ob_calls o = [] -> changed = false) ->
-  monitor cmp cf st ERevoke rq o changed final = None \/
-  monitor cmp cf st ERevoke rq o changed final = Some time_tag.
+  monitor cmp cf st ERevoke rq o changed final = None.
 Proof.
   intros cmp cf st rq houts changed final Hne o. subst o. unfold run_endpoint, revoke_endpoint.
   destruct (authenticate cmp st rq) as [c|e] eqn:Ea.
@@ -340,8 +319,7 @@ Lemma monitor_device : forall cmp cf st rq houts changed final,
   no_empty_id st ->
   let o := run_endpoint cmp cf st EDevice rq houts in
   (ob_res o <> "" -> ob_calls o = [] -> changed = false) ->
-  monitor cmp cf st EDevice rq o changed final = None \/
-  monitor cmp cf st EDevice rq o changed final = Some time_tag.
+  monitor cmp cf st EDevice rq o changed final = None.
 Proof.
   intros cmp cf st rq houts changed final Hne o. subst o. unfold run_endpoint, device_endpoint.
   destruct (authenticate cmp st rq) as [c|e] eqn:Ea.
@@ -356,36 +334,23 @@ Lemma monitor_par : forall cmp cf st u rq houts changed final,
   no_empty_id st ->
   let o := run_endpoint cmp cf st (EPAR u) rq houts in
   (ob_res o <> "" -> ob_calls o = [] -> changed = false) ->
-  monitor cmp cf st (EPAR u) rq o changed final = None \/
-  monitor cmp cf st (EPAR u) rq o changed final = Some par_tag \/
-  monitor cmp cf st (EPAR u) rq o changed final = Some time_tag.
+  monitor cmp cf st (EPAR u) rq o changed final = None.
 Proof.
   intros cmp cf st u rq houts changed final Hne o. subst o. unfold run_endpoint, par_endpoint.
   destruct (authenticate cmp st rq) as [c|e] eqn:Ea.
-  - destruct u; [simpl; intros Hch; apply three_of_two, monitor_rejected;
+  - destruct u; [simpl; intros Hch; apply monitor_rejected;
                   [easy | intros H; rewrite Ea in H; discriminate H | apply Hch; [easy|reflexivity]]|].
     destruct (lookup st (if nonempty (r_fid rq) then r_fid rq else c_id c)) as [c'|] eqn:El;
-      [|simpl; intros Hch; apply three_of_two, monitor_rejected;
+      [|simpl; intros Hch; apply monitor_rejected;
         [easy | intros H; rewrite Ea in H; discriminate H | apply Hch; [easy|reflexivity]]].
-    destruct (lookup_some _ _ _ El) as [Hin Hid]. simpl. intros _.
-    destruct (String.eqb (c_id c) (c_id c')) eqn:Ecc.
-    + apply String.eqb_eq in Ecc. rewrite <- Ecc. apply three_of_two, monitor_as_authenticated; auto.
-      * apply Hne. now apply auth_ok_in with cmp rq.
-      * easy.
-    + right. left. unfold monitor. rewrite spec_who_is_model, Ea. simpl.
-      assert (N : nonempty (c_id c') = true) by (apply nonempty_true; now apply Hne).
-      rewrite N, Ecc. simpl.
-      destruct (nonempty (r_fid rq)) eqn:Ef.
-      * rewrite Hid, String.eqb_refl. reflexivity.
-      * rewrite Hid, String.eqb_refl in Ecc. discriminate Ecc.
+    destruct (String.eqb (c_id c') (c_id c)) eqn:Ecc; simpl; intros Hch.
+    + apply String.eqb_eq in Ecc. rewrite Ecc. apply monitor_as_authenticated; auto.
+      apply Hne. now apply auth_ok_in with cmp rq.
+    + apply monitor_rejected; [easy | intros H; rewrite Ea in H; discriminate H | apply Hch; [easy|reflexivity]].
   - simpl. intros Hch.
-    assert (Hn : par_err e <> "").
-    { pose proof (authenticate_err_class _ _ _ _ Ea) as H.
-      destruct H as [X|[X|[[X _]|[X _]]]]; subst e; easy. }
-    apply three_of_two, monitor_rejected; [exact Hn | | apply Hch; [exact Hn|reflexivity]].
-    intros _. pose proof (rejection_class_named _ _ _ _ Ea) as H.
     pose proof (authenticate_err_class _ _ _ _ Ea) as K.
-    destruct K as [X|[X|[[X _]|[X _]]]]; subst e; simpl in *; try (now left). exact H.
+    assert (Hp : par_err e = "invalid_client") by (destruct K as [X|[X|[X _]]]; subst e; reflexivity).
+    rewrite Hp in *. apply monitor_rejected; [easy | reflexivity | apply Hch; [easy|reflexivity]].
 Qed.
 
 (* The hypothesis about [changed] states what the model's endpoint functions show structurally: a
@@ -395,24 +360,33 @@ Theorem monitor_accepts_model : forall cmp cf st ep rq houts changed final,
   table_ok (cf_handlers cf) = true -> no_empty_id st ->
   let o := run_endpoint cmp cf st ep rq houts in
   (ob_res o <> "" -> (ob_calls o = [] \/ is_cc_grant ep = true) -> changed = false) ->
-  monitor cmp cf st ep rq o changed final = None \/
-  monitor cmp cf st ep rq o changed final = Some par_tag \/
-  monitor cmp cf st ep rq o changed final = Some time_tag.
+  monitor cmp cf st ep rq o changed final = None.
 Proof.
   intros cmp cf st ep rq houts changed final Ht Hne o Hch.
   destruct ep as [g| |u|].
-  - apply three_of_two. now apply monitor_token.
-  - apply three_of_two. apply monitor_revoke; auto.
+  - now apply monitor_token.
+  - apply monitor_revoke; auto.
   - apply monitor_par; auto.
-  - apply three_of_two. apply monitor_device; auto.
+  - apply monitor_device; auto.
 Qed.
 
-(* the two recorded shapes are really produced by the model (so the exclusions are not vacuous),
-   and outside them the monitor is silent on the model *)
-Example par_tag_witness :
+(* The tags of the two repaired defects are still live: on the observations that the code produced
+   before commits 59b9417 / 37f391e the monitor answers with exactly these tags (whereas the model
+   now produces "invalid_request" resp. "invalid_client", on which it is silent). *)
+Example par_tag_still_fires :
   let st := [Cl "t" false false "" "h" []; Cl "o" false false "" "g" []] in
   let rq := Rq (HBasic "s" (Some "t") (Some "s")) "o" "" "" false no_as in
   let cmp := cmp_of [("h", "s")] in
   let cf := Cfg false [] 1 in
-  monitor cmp cf st (EPAR false) rq (run_endpoint cmp cf st (EPAR false) rq []) true "" = Some par_tag.
-Proof. vm_compute. reflexivity. Qed.
+  monitor cmp cf st (EPAR false) rq (Obs "" "o" []) true "" = Some par_tag /\
+  run_endpoint cmp cf st (EPAR false) rq [] = Obs "invalid_request" "" [].
+Proof. split; vm_compute; reflexivity. Qed.
+
+Example time_tag_still_fires :
+  let st := [Cl "svc" false true m_pkjwt "" []] in
+  let rq := Rq HNone "" "" jwt_bearer_type true (As true (Some "svc") "svc" (Some "svc") false true false true) in
+  let cmp := cmp_of [] in
+  let cf := Cfg false [] 1 in
+  monitor cmp cf st ERevoke rq (Obs "error" "" []) false "error" = Some time_tag /\
+  run_endpoint cmp cf st ERevoke rq [] = Obs "invalid_client" "" [].
+Proof. split; vm_compute; reflexivity. Qed.
